@@ -492,6 +492,29 @@ Theorem c13_dimmer_once :
 Proof. exact dimmer_once. Qed.
 Print Assumptions c13_dimmer_once.
 
+(* ---- the composite DimmerResponder as one statement (c13_sensor shape): root device, SubDeviceDispatcher and the
+   sub-devices with their modelled handlers.  Every request in every state: exactly one completion; broadcast /
+   vendorcast: no response; unicast GET/SET: (COMPLETED_OK, Some r) with resp_ok; a NACK leaves the whole dimmer
+   unchanged -- except for SETs fanned out to ALL_RDM_SUBDEVICES, which is exactly the known finding
+   C13-fanout-mixed-nack (c13_fanout_mixed_refuted; c13_fanout_partial says when it cannot happen). ---- *)
+Theorem c13_dimmer :
+  forall c uid q st,
+    len (dm_subs st) < 65536 ->
+    exists r st', dm_send c uid q st = FOk [r] st' /\
+      (is_broadcast (q_dst q) = true -> snd r = None) /\
+      (is_broadcast (q_dst q) = false -> directed_to (q_dst q) uid = true ->
+       q_cc q = GET_COMMAND \/ q_cc q = SET_COMMAND ->
+       exists rr, r = (RDM_COMPLETED_OK, Some rr) /\ resp_ok q rr /\
+                  (q_sub q <> ALL_RDM_SUBDEVICES -> r_type rr = RDM_NACK_REASON -> st' = st)).
+Proof. exact dimmer_conforms. Qed.
+Print Assumptions c13_dimmer.
+
+Example c13_dimmer_example :
+  dm_send (mkCfg [] [] [] []) 5 (mkReq 9 5 1 1 2 SET_COMMAND PID_DMX_START_ADDRESS [1; 0]) (dm_init 4) =
+  FOk [(RDM_COMPLETED_OK, Some (mkResp 5 9 1 RDM_ACK 0 2 SET_COMMAND_RESPONSE PID_DMX_START_ADDRESS []))]
+      (mkDM false IDENTIFY_MODE_LOUD [ds_init 1; mkDS 1 256 false IDENTIFY_MODE_LOUD; ds_init 3; ds_init 4]).
+Proof. vm_compute. reflexivity. Qed.
+
 (* the modelled handler tables have exactly the PIDs and GET/SET handlers of the PARAM_HANDLERS arrays
    (GenTables.v is regenerated from the sources on every run) *)
 Theorem c13_tables :
@@ -505,6 +528,26 @@ Proof.
                              (conj eq_refl (conj eq_refl eq_refl))))))).
 Qed.
 Print Assumptions c13_tables.
+
+(* the advanced dimmer's private constants and tables are regenerated from AdvancedDimmerResponder.cpp into GenTables.v
+   and used by the model; this pins what the proofs rely on: six presets (the initial state), three curves / four response
+   times / three lock states / five PWM frequencies whose descriptions fit their field, one personality, and the
+   level / time windows reported in DIMMER_INFO and PRESET_INFO *)
+Theorem c13_adv_consts :
+  ADV_PRESET_COUNT = len (ad_presets ad_init) /\
+  len ADV_CURVES = 3 /\ len ADV_RESPONSE_TIMES = 4 /\ len ADV_LOCK_STATES = 3 /\ len ADV_PWM_FREQUENCIES = 5 /\
+  forallb (fun fd => len (snd fd) <=? MAX_RDM_STRING_LENGTH) ADV_PWM_FREQUENCIES = true /\
+  len ADV_PERSONALITIES = 1 /\
+  (ADV_LOWER_MIN_LEVEL, ADV_UPPER_MIN_LEVEL, ADV_LOWER_MAX_LEVEL, ADV_UPPER_MAX_LEVEL) = (0, 32767, 32767, 65535) /\
+  (ADV_MIN_FAIL_DELAY_TIME, ADV_MAX_FAIL_DELAY_TIME, ADV_MIN_FAIL_HOLD_TIME, ADV_MAX_FAIL_HOLD_TIME) = (10, 255, 0, 65280) /\
+  (ADV_MIN_STARTUP_DELAY_TIME, ADV_MAX_STARTUP_DELAY_TIME, ADV_MIN_STARTUP_HOLD_TIME, ADV_MAX_STARTUP_HOLD_TIME) =
+  (0, 1200, 0, 36000) /\
+  ADV_INFINITE_TIME = 65535 /\ ADV_DIMMER_RESOLUTION = 14.
+Proof.
+  exact (conj eq_refl (conj eq_refl (conj eq_refl (conj eq_refl (conj eq_refl (conj eq_refl (conj eq_refl
+        (conj eq_refl (conj eq_refl (conj eq_refl (conj eq_refl eq_refl))))))))))).
+Qed.
+Print Assumptions c13_adv_consts.
 
 (* the literal numbers of the property text *)
 Theorem c13_constants :
